@@ -521,7 +521,14 @@ func EnumPathsSeed(start *ssa.BasicBlock, idx int, limit int, maxVisits int, see
 				in string
 			}
 			var cs []carried
-			if ArithFacts && from != nil {
+			// a boolean loop variable that enters the iteration as a constant (a flag set before `goto` /
+			// `continue`) is known for this iteration
+			type carriedBool struct {
+				ph  *ssa.Phi
+				val bool
+			}
+			var bs []carriedBool
+			if from != nil {
 				for k, pr := range b.Preds {
 					if pr != from {
 						continue
@@ -531,8 +538,17 @@ func EnumPathsSeed(start *ssa.BasicBlock, idx int, limit int, maxVisits int, see
 						if !ok {
 							break
 						}
-						if key, ok := p.term(ph.Edges[k], 0); ok {
-							cs = append(cs, carried{ph, key})
+						if ArithFacts {
+							if key, ok := p.term(ph.Edges[k], 0); ok {
+								cs = append(cs, carried{ph, key})
+							}
+						}
+						if cb, isB := ConstBool(p.Resolve(ph.Edges[k])); isB {
+							bs = append(bs, carriedBool{ph, cb})
+						} else if v, known := p.Eval(ph.Edges[k]); known {
+							if bt, isBt := ph.Type().Underlying().(*types.Basic); isBt && bt.Kind() == types.Bool {
+								bs = append(bs, carriedBool{ph, v})
+							}
 						}
 					}
 					break
@@ -541,6 +557,9 @@ func EnumPathsSeed(start *ssa.BasicBlock, idx int, limit int, maxVisits int, see
 			p.enter[b]++
 			for _, c := range cs {
 				p.addEQ(p.canonOf(c.ph), c.in, 0)
+			}
+			for _, c := range bs {
+				p.known[p.canonOf(c.ph)] = c.val
 			}
 		}
 		if from != nil && !isLoopHead(b) {
